@@ -4,4 +4,4 @@ CONSTANTS
   Side = "wan"
   MaxEvents = 4
 INVARIANTS DirectPasses BlockDrops DeadGroupDrops RedirectCarriesDecision StickyWhileTracked SynRoutesAfresh DnsStateless OwnTrafficNeverCaptured WanOriginatedRepliesPass
-PROPERTIES Sticky2
+PROPERTIES Sticky2 JanitorOnlyExpired
